@@ -16,11 +16,7 @@ import (
 	"sync/atomic"
 	"testing"
 
-	"go.uber.org/zap"
 	"pgregory.net/rapid"
-
-	"github.com/metal-toolbox/audito-maldito/processors/auditd"
-	"github.com/metal-toolbox/audito-maldito/processors/sshd"
 )
 
 // ---------------------------------------------------------------------------
@@ -316,11 +312,3 @@ var tick int64
 
 func nextTick() int64 { return atomic.AddInt64(&tick, 1) }
 
-func TestMain(m *testing.M) {
-	l := zap.NewNop().Sugar()
-	auditd.SetLogger(l)
-	sshd.SetLogger(l)
-	code := m.Run()
-	flushStats()
-	os.Exit(code)
-}
